@@ -427,4 +427,300 @@ theorem deleteNodesWitness_ok (h : LHG O A) (ids : List Nat) (hw : WF h)
     rw [renumber_join _ _ _ hp1.1, renumber_join _ _ _ hp1.2]
     by_cases ha : p.1 ∈ ids <;> by_cases hb : p.2 ∈ ids <;> simp [ha, hb]
 
+theorem deletedNodes_nodes_length (h : LHG O A) (ids : List Nat) :
+    (deletedNodes h ids).nodes.length = (survivors h.nodes.length ids).length := by
+  show ((survivors h.nodes.length ids).filterMap (fun i => h.nodes[i]?)).length = _
+  rw [← keepUnmarked_eq, keepUnmarked_length]
+
+theorem deletedNodes_wf (h : LHG O A) (ids : List Nat) (hw : WF h) : WF (deletedNodes h ids) := by
+  have hlt : ∀ l : List Nat, (∀ v ∈ l, v < h.nodes.length) →
+      ∀ v ∈ (l.filter (fun i => !ids.contains i)).map (rn ids),
+        v < (deletedNodes h ids).nodes.length := by
+    intro l hl v hv
+    rw [deletedNodes_nodes_length]
+    obtain ⟨i, hi, rfl⟩ := List.mem_map.mp hv
+    have h1 := List.mem_filter.mp hi
+    exact rn_lt_survivors _ ids (hl i h1.1) (by simpa using h1.2)
+  refine ⟨?_, ?_, ?_, ?_, ?_⟩
+  · show h.edges.length = (h.adjacency.map _).length
+    rw [List.length_map]; exact hw.len
+  · intro e' he'
+    obtain ⟨e, he, rfl⟩ := List.mem_map.mp he'
+    exact ⟨hlt _ (hw.adj e he).1, hlt _ (hw.adj e he).2⟩
+  · simp [deletedNodes]
+  · intro v hv
+    rw [deletedNodes_nodes_length]
+    simp only [deletedNodes, List.map_map, List.mem_map, List.mem_filter] at hv
+    obtain ⟨p, ⟨hp, hk⟩, rfl⟩ := hv
+    simp only [Bool.and_eq_true, Bool.not_eq_true'] at hk
+    exact rn_lt_survivors _ ids (hw.q1 _ (List.of_mem_zip hp).1) hk.1
+  · intro v hv
+    rw [deletedNodes_nodes_length]
+    simp only [deletedNodes, List.map_map, List.mem_map, List.mem_filter] at hv
+    obtain ⟨p, ⟨hp, hk⟩, rfl⟩ := hv
+    simp only [Bool.and_eq_true, Bool.not_eq_true'] at hk
+    exact rn_lt_survivors _ ids (hw.q2 _ (List.of_mem_zip hp).2) hk.2
+
+theorem deleteNodesWitness_panic (h : LHG O A) (ids : List Nat)
+    (hbad : ∃ i ∈ ids, h.nodes.length ≤ i) :
+    LHG.deleteNodesWitness h ids = .panic "delete_nodes:assert-bounds" := by
+  obtain ⟨i, hi, hle⟩ := hbad
+  unfold LHG.deleteNodesWitness
+  have he' : ids.isEmpty = false := by
+    cases ids with
+    | nil => simp at hi
+    | cons _ _ => rfl
+  have hall : ¬ (ids.all (fun x => decide (x < h.nodes.length)) = true) := by
+    simp only [List.all_eq_true, decide_eq_true_eq]
+    intro hc
+    have := hc i hi
+    omega
+  simp only [he', Bool.false_eq_true, if_false, hall, not_false_eq_true, if_true]
+
+/-- the deletion primitives depend on `ids` only as a set -/
+theorem deleteNodesWitness_congr (h : LHG O A) (ids ids' : List Nat)
+    (hs : ∀ i, i ∈ ids ↔ i ∈ ids') :
+    LHG.deleteNodesWitness h ids = LHG.deleteNodesWitness h ids' := by
+  have he : ids.isEmpty = ids'.isEmpty := by
+    cases ids with
+    | nil =>
+      cases ids' with
+      | nil => rfl
+      | cons a l => exact absurd ((hs a).mpr (by simp)) (by simp)
+    | cons a l =>
+      cases ids' with
+      | nil => exact absurd ((hs a).mp (by simp)) (by simp)
+      | cons _ _ => rfl
+  have hall : ids.all (fun x => decide (x < h.nodes.length)) =
+      ids'.all (fun x => decide (x < h.nodes.length)) := by
+    rw [Bool.eq_iff_iff]
+    simp only [List.all_eq_true, decide_eq_true_eq]
+    exact ⟨fun hc x hx => hc x ((hs x).mpr hx), fun hc x hx => hc x ((hs x).mp hx)⟩
+  unfold LHG.deleteNodesWitness
+  simp only [he, hall, renumber_congr _ ids ids' hs, keepUnmarked_congr _ ids ids' hs]
+
+/-- the hypergraph left after deleting the edges `ids` -/
+def deletedEdges (h : LHG O A) (ids : List Nat) : LHG O A :=
+  { h with edges := LHG.keepUnmarked h.edges ids, adjacency := LHG.keepUnmarked h.adjacency ids }
+
+theorem deleteEdges_ok (h : LHG O A) (ids : List Nat) (hlen : h.edges.length = h.adjacency.length)
+    (hids : ∀ i ∈ ids, i < h.edges.length) :
+    LHG.deleteEdges h ids = .ok (deletedEdges h ids) := by
+  unfold LHG.deleteEdges
+  rw [if_neg (by simpa using hlen)]
+  by_cases he : ids = []
+  · subst he
+    simp [deletedEdges, keepUnmarked_nil]
+  · have he' : ids.isEmpty = false := by simpa using he
+    have hall : ids.all (fun x => decide (x < h.edges.length)) = true := by simpa using hids
+    simp only [he', Bool.false_eq_true, if_false, hall, not_true_eq_false]
+    rfl
+
+theorem deleteEdges_panic (h : LHG O A) (ids : List Nat) (hlen : h.edges.length = h.adjacency.length)
+    (hbad : ∃ i ∈ ids, h.edges.length ≤ i) :
+    LHG.deleteEdges h ids = .panic "delete_edges:assert-bounds" := by
+  obtain ⟨i, hi, hle⟩ := hbad
+  unfold LHG.deleteEdges
+  rw [if_neg (by simpa using hlen)]
+  have he' : ids.isEmpty = false := by
+    cases ids with
+    | nil => simp at hi
+    | cons _ _ => rfl
+  have hall : ¬ (ids.all (fun x => decide (x < h.edges.length)) = true) := by
+    simp only [List.all_eq_true, decide_eq_true_eq]
+    intro hc
+    have := hc i hi
+    omega
+  simp only [he', Bool.false_eq_true, if_false, hall, not_false_eq_true, if_true]
+
+theorem deleteEdges_malformed (h : LHG O A) (ids : List Nat)
+    (hlen : h.edges.length ≠ h.adjacency.length) :
+    LHG.deleteEdges h ids = .panic "delete_edges:assert-malformed" := by
+  unfold LHG.deleteEdges
+  rw [if_pos (by simpa using hlen)]
+
+theorem deleteEdges_congr (h : LHG O A) (ids ids' : List Nat) (hs : ∀ i, i ∈ ids ↔ i ∈ ids')
+    (hlen : h.edges.length = h.adjacency.length) :
+    LHG.deleteEdges h ids = LHG.deleteEdges h ids' := by
+  by_cases hb : ∀ i ∈ ids, i < h.edges.length
+  · have hb' : ∀ i ∈ ids', i < h.edges.length := fun i hi => hb i ((hs i).mpr hi)
+    rw [deleteEdges_ok h ids hlen hb, deleteEdges_ok h ids' hlen hb']
+    unfold deletedEdges
+    rw [keepUnmarked_congr _ ids ids' hs, keepUnmarked_congr _ ids ids' hs]
+  · have hbad : ∃ i ∈ ids, h.edges.length ≤ i := by
+      apply Classical.byContradiction
+      intro hc
+      apply hb
+      intro i hi
+      apply Classical.byContradiction
+      intro hlt
+      exact hc ⟨i, hi, by omega⟩
+    have hbad' : ∃ i ∈ ids', h.edges.length ≤ i := by
+      obtain ⟨i, hi, hle⟩ := hbad
+      exact ⟨i, (hs i).mp hi, hle⟩
+    rw [deleteEdges_panic h ids hlen hbad, deleteEdges_panic h ids' hlen hbad']
+
+theorem mem_keepUnmarked (xs : List α) (ids : List Nat) (x : α) (hx : x ∈ LHG.keepUnmarked xs ids) :
+    x ∈ xs := by
+  rw [keepUnmarked_eq] at hx
+  obtain ⟨i, _, hi⟩ := List.mem_filterMap.mp hx
+  exact List.mem_of_getElem? hi
+
+theorem deletedEdges_wf (h : LHG O A) (ids : List Nat) (hw : WF h) : WF (deletedEdges h ids) := by
+  refine ⟨?_, ?_, hw.qlen, hw.q1, hw.q2⟩
+  · show (LHG.keepUnmarked h.edges ids).length = (LHG.keepUnmarked h.adjacency ids).length
+    rw [keepUnmarked_length, keepUnmarked_length, hw.len]
+  · intro e he
+    exact hw.adj e (mem_keepUnmarked _ _ _ he)
+
+/-- the open hypergraph left after deleting the nodes `ids` -/
+def deletedNodesO (f : LOHG O A) (ids : List Nat) : LOHG O A :=
+  ⟨(f.sources.filter (fun i => !ids.contains i)).map (rn ids),
+   (f.targets.filter (fun i => !ids.contains i)).map (rn ids),
+   deletedNodes f.hypergraph ids⟩
+
+theorem deleteNodesO_ok (f : LOHG O A) (ids : List Nat) (hw : OWF f)
+    (hids : ∀ i ∈ ids, i < f.hypergraph.nodes.length) :
+    LOHG.deleteNodes f ids = .ok (deletedNodesO f ids) := by
+  unfold LOHG.deleteNodes
+  rw [deleteNodesWitness_ok _ ids hw.hg hids]
+  simp only [bind, Res.bind]
+  rw [renumber_length]
+  have hsrc : f.sources.all (fun x => decide (x < f.hypergraph.nodes.length)) = true := by
+    simpa using hw.src
+  have htgt : f.targets.all (fun x => decide (x < f.hypergraph.nodes.length)) = true := by
+    simpa using hw.tgt
+  rw [if_neg (by simp only [hsrc, htgt]; simp)]
+  rw [remapIds_renumber _ _ _ hw.src, remapIds_renumber _ _ _ hw.tgt]
+  rfl
+
+theorem deleteNodesO_panic (f : LOHG O A) (ids : List Nat)
+    (hbad : ∃ i ∈ ids, f.hypergraph.nodes.length ≤ i) :
+    LOHG.deleteNodes f ids = .panic "delete_nodes:assert-bounds" := by
+  unfold LOHG.deleteNodes
+  rw [deleteNodesWitness_panic _ ids hbad]
+  rfl
+
+theorem deletedNodesO_wf (f : LOHG O A) (ids : List Nat) (hw : OWF f) : OWF (deletedNodesO f ids) := by
+  have hlt : ∀ l : List Nat, (∀ v ∈ l, v < f.hypergraph.nodes.length) →
+      ∀ v ∈ (l.filter (fun i => !ids.contains i)).map (rn ids),
+        v < (deletedNodes f.hypergraph ids).nodes.length := by
+    intro l hl v hv
+    rw [deletedNodes_nodes_length]
+    obtain ⟨i, hi, rfl⟩ := List.mem_map.mp hv
+    have h1 := List.mem_filter.mp hi
+    exact rn_lt_survivors _ ids (hl i h1.1) (by simpa using h1.2)
+  exact ⟨deletedNodes_wf _ ids hw.hg, hlt _ hw.src, hlt _ hw.tgt⟩
+
+/-! ### well-formedness of the remaining builder calls -/
+
+theorem newNode_wf (h : LHG O A) (w : O) (hw : WF h) : WF (h.newNode w).1 := by
+  have hle : h.nodes.length ≤ (h.nodes ++ [w]).length := by simp
+  exact ⟨hw.len, fun e he => (hw.adj e he).mono hle, hw.qlen,
+    fun v hv => Nat.lt_of_lt_of_le (hw.q1 v hv) hle, fun v hv => Nat.lt_of_lt_of_le (hw.q2 v hv) hle⟩
+
+theorem appendNodes_wf (h : LHG O A) (ts : List O) (hw : WF h) :
+    WF { h with nodes := h.nodes ++ ts } := by
+  have hle : h.nodes.length ≤ (h.nodes ++ ts).length := by simp
+  exact ⟨hw.len, fun e he => (hw.adj e he).mono hle, hw.qlen,
+    fun v hv => Nat.lt_of_lt_of_le (hw.q1 v hv) hle, fun v hv => Nat.lt_of_lt_of_le (hw.q2 v hv) hle⟩
+
+theorem newEdge_wf (h : LHG O A) (x : A) (e : LEdge) (hw : WF h) (he : EdgeOK h.nodes.length e) :
+    WF (h.newEdge x e).1 := by
+  refine ⟨?_, ?_, hw.qlen, hw.q1, hw.q2⟩
+  · show (h.edges ++ [x]).length = (h.adjacency ++ [e]).length
+    simp [hw.len]
+  · intro e' he'
+    rcases List.mem_append.mp he' with h1 | h1
+    · exact hw.adj e' h1
+    · rw [List.mem_singleton.mp h1]; exact he
+
+theorem newOperation_wf (h : LHG O A) (x : A) (st tt : List O) (hw : WF h) :
+    WF (h.newOperation x st tt).1 := by
+  rw [newOperation_eq]
+  have h1 := appendNodes_wf h (st ++ tt) hw
+  refine ⟨?_, ?_, h1.qlen, h1.q1, h1.q2⟩
+  · show (h.edges ++ [x]).length = (h.adjacency ++ [_]).length
+    simp [hw.len]
+  · intro e' he'
+    rcases List.mem_append.mp he' with h2 | h2
+    · exact h1.adj e' h2
+    · rw [List.mem_singleton.mp h2]
+      constructor
+      · intro v hv
+        have := List.mem_range'_1.mp hv
+        show v < (h.nodes ++ (st ++ tt)).length
+        simp only [List.length_append]; omega
+      · intro v hv
+        have := List.mem_range'_1.mp hv
+        show v < (h.nodes ++ (st ++ tt)).length
+        simp only [List.length_append]; omega
+
+theorem unify_wf (h : LHG O A) (v w : Nat) (hw : WF h) (hv : v < h.nodes.length)
+    (hw' : w < h.nodes.length) : WF (h.unify v w) := by
+  refine ⟨hw.len, hw.adj, ?_, ?_, ?_⟩
+  · show (h.quotient.1 ++ [v]).length = (h.quotient.2 ++ [w]).length
+    simp [hw.qlen]
+  · intro u hu
+    rcases List.mem_append.mp hu with h1 | h1
+    · exact hw.q1 u h1
+    · rw [List.mem_singleton.mp h1]; exact hv
+  · intro u hu
+    rcases List.mem_append.mp hu with h1 | h1
+    · exact hw.q2 u h1
+    · rw [List.mem_singleton.mp h1]; exact hw'
+
+/-- closed form of `add_edge_source` on an edge id in range -/
+theorem addEdgeSource_ok (h : LHG O A) (e : Nat) (w : O) (he : e < h.adjacency.length) :
+    h.addEdgeSource e w =
+      .ok ({ h with nodes := h.nodes ++ [w],
+                    adjacency := h.adjacency.set e
+                      { h.adjacency[e] with sources := h.adjacency[e].sources ++ [h.nodes.length] } },
+           h.nodes.length) := by
+  unfold LHG.addEdgeSource LHG.newNode
+  simp only [List.getElem?_eq_getElem he]
+
+theorem addEdgeSource_panic (h : LHG O A) (e : Nat) (w : O) (he : h.adjacency.length ≤ e) :
+    h.addEdgeSource e w = .panic "add_edge_source:index" := by
+  unfold LHG.addEdgeSource LHG.newNode
+  simp only [List.getElem?_eq_none he]
+
+theorem addEdgeTarget_ok (h : LHG O A) (e : Nat) (w : O) (he : e < h.adjacency.length) :
+    h.addEdgeTarget e w =
+      .ok ({ h with nodes := h.nodes ++ [w],
+                    adjacency := h.adjacency.set e
+                      { h.adjacency[e] with targets := h.adjacency[e].targets ++ [h.nodes.length] } },
+           h.nodes.length) := by
+  unfold LHG.addEdgeTarget LHG.newNode
+  simp only [List.getElem?_eq_getElem he]
+
+theorem addEdgeTarget_panic (h : LHG O A) (e : Nat) (w : O) (he : h.adjacency.length ≤ e) :
+    h.addEdgeTarget e w = .panic "add_edge_target:index" := by
+  unfold LHG.addEdgeTarget LHG.newNode
+  simp only [List.getElem?_eq_none he]
+
+theorem set_wf (h : LHG O A) (w : O) (e : Nat) (e' : LEdge) (hw : WF h)
+    (he' : EdgeOK (h.nodes.length + 1) e') :
+    WF { h with nodes := h.nodes ++ [w], adjacency := h.adjacency.set e e' } := by
+  have h1 := appendNodes_wf h [w] hw
+  refine ⟨?_, ?_, h1.qlen, h1.q1, h1.q2⟩
+  · show h.edges.length = (h.adjacency.set e e').length
+    rw [List.length_set]; exact hw.len
+  · intro x hx
+    rcases List.mem_or_eq_of_mem_set hx with h2 | h2
+    · exact h1.adj x h2
+    · rw [h2]
+      show EdgeOK (h.nodes ++ [w]).length e'
+      simpa using he'
+
+theorem mapNodes_wf {T : Type} (h : LHG O A) (k : O → T) (hw : WF h) : WF (h.mapNodes k) := by
+  have hl : (h.mapNodes k).nodes.length = h.nodes.length := by simp [LHG.mapNodes]
+  exact ⟨hw.len, fun e he => by rw [hl]; exact hw.adj e he, hw.qlen,
+    fun v hv => by rw [hl]; exact hw.q1 v hv, fun v hv => by rw [hl]; exact hw.q2 v hv⟩
+
+theorem mapEdges_wf {T : Type} (h : LHG O A) (k : A → T) (hw : WF h) : WF (h.mapEdges k) := by
+  refine ⟨?_, hw.adj, hw.qlen, hw.q1, hw.q2⟩
+  show (h.edges.map k).length = h.adjacency.length
+  rw [List.length_map]; exact hw.len
+
 end OH.LaxEdit
